@@ -63,7 +63,7 @@ impl<'b> Machine<'b> {
     pub fn new_vec(&mut self, kind: u8, a: u8, b: u8, c: u8) {
         let bump = self.bump;
         let k = (a % 9) as usize;
-        let how = b % 5;
+        let how = b % 7;
         macro_rules! mk {
             ($A:ty, $B:ty, $wrap:expr) => {{
                 let xs: Vec<u32> = (0..k).map(|j| (c as u32 + j as u32 * 7) % 12).collect();
@@ -75,6 +75,17 @@ impl<'b> Machine<'b> {
                             1 => BVec::with_capacity_in(k + (b as usize >> 4), bump),
                             2 => BVec::from_iter_in(xs.iter().map(|&x| <$A>::make(x)), bump),
                             3 => xs.iter().map(|&x| <$A>::make(x)).collect_in::<BVec<'b, $A>>(bump),
+                            // FromIteratorIn for Option<V> / Result<V, E>: all Some / all Ok collects, the first None / Err stops
+                            5 => {
+                                let stop = (c as usize) % (k + 2);
+                                let r: Option<BVec<'b, $A>> = xs.iter().enumerate().map(|(i, &x)| if i == stop { None } else { Some(<$A>::make(x)) }).collect_in(bump);
+                                r.unwrap_or_else(|| BVec::new_in(bump))
+                            }
+                            6 => {
+                                let stop = (c as usize) % (k + 2);
+                                let r: Result<BVec<'b, $A>, u8> = xs.iter().enumerate().map(|(i, &x)| if i == stop { Err(7u8) } else { Ok(<$A>::make(x)) }).collect_in(bump);
+                                r.unwrap_or_else(|_| BVec::new_in(bump))
+                            }
                             _ => {
                                 if k % 2 == 0 {
                                     bumpalo::vec![in bump; <$A>::make(xs.get(0).cloned().unwrap_or(1)); k]
@@ -89,6 +100,16 @@ impl<'b> Machine<'b> {
                     0 => Vec::new(),
                     1 => Vec::with_capacity(k + (b as usize >> 4)),
                     2 | 3 => xs.iter().map(|&x| <$B>::make(x)).collect(),
+                    5 => {
+                        let stop = (c as usize) % (k + 2);
+                        let r: Option<Vec<$B>> = xs.iter().enumerate().map(|(i, &x)| if i == stop { None } else { Some(<$B>::make(x)) }).collect();
+                        r.unwrap_or_default()
+                    }
+                    6 => {
+                        let stop = (c as usize) % (k + 2);
+                        let r: Result<Vec<$B>, u8> = xs.iter().enumerate().map(|(i, &x)| if i == stop { Err(7u8) } else { Ok(<$B>::make(x)) }).collect();
+                        r.unwrap_or_default()
+                    }
                     _ => {
                         if k == 0 {
                             // bumpalo::vec![in b; e; 0] does not evaluate `e` (so nothing is created or
